@@ -253,3 +253,17 @@ package db
 //@   modifies nothing
 //@ func Patch.Dump(self)
 //@   modifies nothing
+
+// ---- managers as seen by the account pool (C14) ---------------------------------------------------------------------------------
+//@ model Manager base int     // the confirmed database this manager was built on
+//@ model Manager state int    // abstract content
+//@ func NewMemDBManager(rawDB)
+//@   trusted
+//@   ensures result != nil && result.base == int(rawDB)
+//@   modifies nothing
+//@ func Manager.Add(self, transaction)
+//@   modifies self.state
+//@ func Manager.Frontier(self)
+//@   modifies nothing
+//@ func Manager.GetPatch(self, identifier)
+//@   modifies nothing
